@@ -411,7 +411,8 @@ def scalar_round(rng, cls):
     case = {"class": cls, "program": prog, "inputs": ins}
     try:
         pv = eval_py(prog, objs)
-    except Exception as e:  # noqa
+    except BaseException as e:  # noqa  (a Rust panic arrives as pyo3's PanicException, a BaseException)
+        _reraise_control(e)
         ACC.violate("exception:%s" % cls, "evaluating a program on %s raised %r" % (cls, e), case)
         return
     mv = ndverif.mirror_eval(cls, (0, 0), mirror_json(prog), [(p, []) for p in ins])
@@ -421,6 +422,35 @@ def scalar_round(rng, cls):
     if len(ACC.samples) < 3:
         ACC.samples.append({"class": cls, "program": prog, "inputs": ins, "python_repr_of_last_node": repr(pv[-1]), "rust_to_string": mv[-1][2]})
     _ = stride
+
+
+def _reraise_control(e):
+    if isinstance(e, (KeyboardInterrupt, SystemExit, GeneratorExit, MemoryError)):
+        raise e
+
+
+def huge_int_pow(rng, cls):
+    """x ** n with a Python int beyond the i32 range must behave like powf(float(n))"""
+    n = rng.choice([2 ** 31 + 5, -(2 ** 31) - 7, 2 ** 32, 2 ** 40 + 1, -(2 ** 35) + 3]) if cls != "x" else 0
+    p = [rnd_part(rng) / abs(n) for _ in range(NPARTS[cls])]
+    k = rng.randrange(-3, 4)
+    p[0] = 1.0 + k * 2.0 ** -52
+    if cls in ("HyperDualDual64", "Dual2Dual64", "Dual3Dual64"):
+        pass
+    x = make_scalar(cls, p)
+    prog = [{"op": "input", "i": 0}, {"op": "pow_int_as_float", "a": 0, "n": n}]
+    case = {"class": cls, "x": p, "n": n}
+    ACC.observe("pow_huge_int|%s" % cls)
+    try:
+        r = x ** n
+    except BaseException as e:  # noqa  (a Rust panic arrives as pyo3's PanicException, a BaseException)
+        _reraise_control(e)
+        ACC.violate("pow_huge_int:%s" % cls, "%s ** %d raised %r" % (cls, n, e), case)
+        return
+    mprog = [{"op": "input", "i": 0}, {"op": "pow_float", "a": 0, "f": float(n)}]
+    mv = ndverif.mirror_eval(cls, (0, 0), mirror_json(mprog), [(p, [])])
+    compare_value("%s.pow_huge_int" % cls, "pow_huge_int|%s" % cls, r, mv[1], case)
+    _ = prog
 
 
 def numpy_ops(rng, cls):
@@ -474,7 +504,8 @@ def check_callback_values(tag, prog, objs, values, dims, case):
         return
     try:
         mv = ndverif.mirror_eval(cls, dims, mirror_json(prog), ins)
-    except Exception as e:  # noqa
+    except BaseException as e:  # noqa  (a Rust panic arrives as pyo3's PanicException, a BaseException)
+        _reraise_control(e)
         ACC.violate("mirror:%s" % tag, "mirror evaluation failed: %r" % (e,), case)
         return
     for i, (po, mo) in enumerate(zip(values, mv)):
@@ -560,7 +591,8 @@ def run_driver(rng, name):
     ACC.observe("driver:" + key)
     try:
         res = call(cb_factory(progs, len(x) + len(y)))
-    except Exception as e:  # noqa
+    except BaseException as e:  # noqa  (a Rust panic arrives as pyo3's PanicException, a BaseException)
+        _reraise_control(e)
         ACC.violate("driver-exception:%s" % name, "%s raised %r" % (name, e), case)
         return
     got = []
@@ -585,7 +617,8 @@ def run_driver(rng, name):
         except Probe as e:
             if e is not marker:
                 ACC.violate("exception-propagation:%s" % name, "%s re-raised a different exception object" % name, case)
-        except Exception as e:  # noqa
+        except BaseException as e:  # noqa  (a Rust panic arrives as pyo3's PanicException, a BaseException)
+            _reraise_control(e)
             ACC.violate("exception-propagation:%s" % name, "%s turned the callback's exception into %r" % (name, e), case)
 
 
@@ -596,7 +629,8 @@ def documented_errors():
         ACC.violate("documented-error:jacobian", "jacobian with 11 variables did not raise", {})
     except TypeError:
         pass
-    except Exception as e:  # noqa
+    except BaseException as e:  # noqa  (a Rust panic arrives as pyo3's PanicException, a BaseException)
+        _reraise_control(e)
         ACC.violate("documented-error:jacobian", "jacobian with 11 variables raised %r instead of TypeError" % (e,), {})
     ACC.observe("documented-error:non-dual-return")
     try:
@@ -604,7 +638,8 @@ def documented_errors():
         ACC.violate("documented-error:first_derivative", "first_derivative accepted a float return value", {})
     except TypeError:
         pass
-    except Exception as e:  # noqa
+    except BaseException as e:  # noqa  (a Rust panic arrives as pyo3's PanicException, a BaseException)
+        _reraise_control(e)
         ACC.violate("documented-error:first_derivative", "raised %r instead of TypeError" % (e,), {})
 
 
@@ -619,6 +654,7 @@ def main():
         if r % 4 == 0:
             for cls in NPARTS:
                 numpy_ops(rng, cls)
+                huge_int_pow(rng, cls)
         for d in drivers:
             run_driver(rng, d)
             if d in ("gradient", "hessian", "jacobian", "partial_hessian", "third_partial_derivative_vec"):
